@@ -182,6 +182,88 @@ let cmd_rabin (a : sx list) : string =
 
 let fuel_big = nat_of_int 20000
 
+(* ---------- dtarget / dval ---------- *)
+open Target
+let hint_of = function
+  | "bool" -> Some HBool | "i8" -> Some HI8 | "i16" -> Some HI16 | "i32" -> Some HI32 | "i64" -> Some HI64
+  | "i128" -> Some HI128 | "u8" -> Some HU8 | "u16" -> Some HU16 | "u32" -> Some HU32 | "u64" -> Some HU64
+  | "u128" -> Some HU128 | "f32" -> Some HF32 | "f64" -> Some HF64 | "char" -> Some HChar | "str" -> Some HStr
+  | "string" -> Some HString | "bytes" -> Some HBytes | "bytebuf" -> Some HByteBuf
+  | "identifier" -> Some HIdentifier | "unit" -> Some HUnit | _ -> None
+let rec sx_target s : dtarget =
+  let (h, a) = head s in
+  let fields fs = L.map (function Ls [f; t] -> (sx_bytes f, sx_target t) | _ -> failwith "bad field") fs in
+  match hint_of h with
+  | Some hh -> THint hh
+  | None ->
+  match h, a with
+  | "any", _ -> TAny
+  | "ignored", _ -> TIgnored
+  | "unit_struct", [n] -> TUnitStruct (sx_bytes n)
+  | "newtype_struct", [n; t] -> TNewtypeStruct (sx_bytes n, sx_target t)
+  | "option", [t] -> TOption (sx_target t)
+  | "seq", [t] -> TSeq (sx_target t)
+  | "tuple", ts -> TTuple (L.map sx_target ts)
+  | "tuple_struct", n :: ts -> TTupleStruct (sx_bytes n, L.map sx_target ts)
+  | "map", [k; v] -> TMap (sx_target k, sx_target v)
+  | "struct", n :: fs -> TStruct (sx_bytes n, fields fs)
+  | "enum", n :: vs ->
+      TEnum (sx_bytes n,
+             L.map (fun v -> match head v with
+                             | ("unit", [vn]) -> (sx_bytes vn, TVUnit)
+                             | ("newtype", [vn; t]) -> (sx_bytes vn, TVNewtype (sx_target t))
+                             | ("tuple", vn :: ts) -> (sx_bytes vn, TTuple (L.map sx_target ts))
+                             | ("struct", vn :: fs) -> (sx_bytes vn, TStruct (sx_bytes vn, fields fs))
+                             | _ -> failwith "bad variant") vs)
+  | _ -> failwith ("unknown dtarget " ^ h)
+
+let width_name signed w =
+  (if signed then "i" else "u") ^ (match w with W8 -> "8" | W16 -> "16" | W32 -> "32" | W64 -> "64" | W128 -> "128")
+let rec show_dval (d : dval) : string =
+  match d with
+  | DBool b -> if b then "(bool 1)" else "(bool 0)"
+  | DInt (s, w, z) -> "(" ^ width_name s w ^ " " ^ Z.to_string (zz z) ^ ")"
+  | DF32 b -> "(f32 " ^ Z.to_string (zn b) ^ ")"
+  | DF64 b -> "(f64 " ^ Z.to_string (zn b) ^ ")"
+  | DChar c -> "(char " ^ Z.to_string (zn c) ^ ")"
+  | DUnit -> "unit"
+  | DNone -> "none"
+  | DSome d -> "(some " ^ show_dval d ^ ")"
+  | DStr s -> "(str " ^ hex s ^ ")"
+  | DBStr (o, l, s) -> "(bstr " ^ Z.to_string (zn o) ^ " " ^ Z.to_string (zn l) ^ " " ^ hex s ^ ")"
+  | DBytes s -> "(bytes " ^ hex s ^ ")"
+  | DBBytes (o, l, s) -> "(bbytes " ^ Z.to_string (zn o) ^ " " ^ Z.to_string (zn l) ^ " " ^ hex s ^ ")"
+  | DSeq ds -> "(seq" ^ String.concat "" (L.map (fun d -> " " ^ show_dval d) ds) ^ ")"
+  | DMap kvs -> "(map" ^ String.concat "" (L.map (fun (k, v) -> " (" ^ show_dval k ^ " " ^ show_dval v ^ ")") kvs) ^ ")"
+  | DNewtype d -> "(newtype " ^ show_dval d ^ ")"
+  | DEnum (v, d) -> "(enum " ^ hex v ^ " " ^ show_dval d ^ ")"
+  | DStruct fs -> "(struct" ^ String.concat "" (L.map (fun (k, v) -> " (" ^ hex k ^ " " ^ show_dval v ^ ")") fs) ^ ")"
+  | DMissing -> "missing"
+  | DIgnored -> "ignored"
+
+let cmd_de (a : sx list) : string =
+  match a with
+  | sch :: tgt :: data :: mode :: rest ->
+      let (cfg, max_alloc) =
+        (match rest with
+         | [c] -> (match head c with
+                   | ("cfg", ms :: dp :: more) ->
+                       ({ De.c_max_seq = sx_n ms; De.c_depth = sx_nat dp },
+                        (match more with [ma] -> sx_n ma | _ -> n_of_z (Z.of_int (512 * 1024 * 1024))))
+                   | _ -> failwith "bad cfg")
+         | _ -> (De.cfg_default, n_of_z (Z.of_int (512 * 1024 * 1024)))) in
+      let bytes = sx_bytes data in
+      let rs = (match head mode with
+                | ("slice", _) -> Reader.slice_reader bytes
+                | ("chunks", plan) -> Reader.chunked_reader bytes (L.map sx_n plan) max_alloc
+                | _ -> failwith "bad mode") in
+      (match frozen sch with
+       | Ok fs ->
+           show_res (fun (d, rest) -> show_dval d ^ " " ^ Z.to_string (zn rest))
+             (De.de_datum (nat_of_int 100000) fs cfg (sx_target tgt) rs)
+       | _ -> "(bad-schema)")
+  | _ -> failwith "de: arguments"
+
 let cmd_fp (a : sx list) : string =
   match a with
   | [sch] ->
@@ -202,6 +284,7 @@ let run_case (line : string) : string =
          | "ser" -> cmd_ser args
          | "rabin" -> cmd_rabin args
          | "fp" -> cmd_fp args
+         | "de" -> cmd_de args
          | _ -> failwith ("unknown command " ^ cmd))
     | _ -> "(bad-case)"
   with
